@@ -497,7 +497,9 @@ func innerGen() *rapid.Generator[innerTab] {
 	})
 }
 
-func (it innerTab) String() string { return fmt.Sprintf("λx.[x+c|c<-%v[x mod %d]]", [][]int(it), len(it)) }
+func (it innerTab) String() string {
+	return fmt.Sprintf("λx.[x+c|c<-%v[x mod %d]]", [][]int(it), len(it))
+}
 
 func rFlatMap(xs []int, f func(int) []int) []int {
 	out := []int{}
